@@ -1,9 +1,14 @@
 #!/bin/sh
 # Re-confirms every seeded change: scratch copy of the repository, apply the patch, pinned suite must pass,
 # the property's quick check must report a VIOLATION (exit 1). One line per change.
+# usage: seeded_all.sh [NAME-PREFIX ...]
 cd "$(dirname "$0")/.."
 SRC=${VP_RUN_REPO:-/repo}
-for d in seeded/*/; do
+# optional arguments: name prefixes (e.g. "C01 C02") to re-confirm only those changes (several lanes in parallel)
+PAT=""
+for a in "$@"; do PAT="$PAT seeded/$a*/"; done
+[ -z "$PAT" ] && PAT="seeded/*/"
+for d in $PAT; do
   n=$(basename $d); p=$(python3 -c "import json;print(json.load(open('$d/meta.json'))['property'])")
   if [ "$(python3 -c "import json;print(json.load(open('$d/meta.json')).get('out_of_scope',False))")" = "True" ]; then echo "$n: out of scope (see meta.json), not run"; continue; fi
   T=$(mktemp -d /tmp/seedrun-XXXX); cp -r $SRC $T/repo; rm -rf $T/repo/.git
